@@ -319,8 +319,8 @@ def C(pitches, dur=4, dots=0, **kw):
     return Ev("chord", [(s, a, o) for (s, a, o) in pitches], dur, dots, **kw)
 
 
-def G(step, octv, dur=8, alter=None):
-    return Ev("grace", [(step, alter, octv)], dur, 0)
+def G(step, octv, dur=8, alter=None, **kw):
+    return Ev("grace", [(step, alter, octv)], dur, 0, **kw)
 
 
 def catalogue(tier="quick"):
@@ -382,6 +382,8 @@ def catalogue(tier="quick"):
                                                                                                         [[T3("F", 2, 4), T3("A", 2, 4), T3("C", 3, 4), N("F", 2, 2)]]])]), mei))
     out.append(("cross_staff_note", Doc([Staff(1, measures=[[[N("C", 4), N("G", 3, staff=2), N("E", 4, 2)]]]),
                                          Staff(2, clef=("F", 4), measures=[[[N("C", 3, 1)]]])]), mei))
+    out.append(("cross_staff_grace_notes", Doc([Staff(1, measures=[[[N("C", 5), G("G", 3, staff=2), N("E", 5), N("G", 5, 2)]], [[G("A", 3, staff=2), G("B", 3, staff=2), N("C", 5, 1)]]]),
+                                                Staff(2, clef=("F", 4), measures=[[[N("C", 3, 2), G("E", 5, staff=1), N("G", 2, 2)]], [[N("C", 2, 1)]]])]), mei))
     out.append(("cross_staff_chord_notes", Doc([Staff(1, measures=[[[C([("G", None, 3), ("E", None, 4), ("C", None, 5)], 2, note_staffs=[2, None, None]),
                                                                       C([("A", None, 3), ("F", None, 4)], 2, note_staffs=[None, 2])]],
                                                                     [[C([("F", None, 3), ("D", None, 4), ("B", None, 4)], 1, staff=2, note_staffs=[None, 1, None])]]]),
